@@ -168,6 +168,8 @@ func runC10(w *World) *Result {
 	r.Explanation = "Enumerates, from the extracted templates of both converters, every name the compiler itself places into the shell's variable / function / label / command namespace (as small patterns: literal text, <n> for counters, <id> for a user identifier) and decides for each whether it lies in the language of user identifiers (the lexer's identifier regex minus keywords, read from the lexer source). A pattern inside that language needs a mechanism that makes a collision impossible – user names emitted into a disjoint space – which is decided at template level (every user-identifier hole in name position carries a literal prefix no compiler-owned pattern can produce). Without the mechanism every pattern is a (recorded) finding; a pattern that is not recorded – a new temporary, a changed mangling scheme, a new helper – is reported as a new violation."
 	r.NotDecided = "a parser-side reservation check (rejecting reserved spellings) is not recognised: if the project adds one, the recorded findings stay silent but are not auto-discharged; inherited environment variables other than the fixed PATH/IFS entries."
 	r.Rule("R-C10-names", "each compiler-owned name pattern is disjoint from the user identifier language or protected by an emission scheme", 40)
+	r.Rule("R-C10-prefix", "imported names are kept apart by a prefix that is a digest of the whole file content, so behaviour does not depend on which names two imported files share", 1)
+	PrefixDigestRule(w, r, "R-C10-prefix", nil)
 	identRe, kw, err := LexerIdentifierLanguage(w)
 	if err != nil {
 		r.Bad("R-C10-names", "lexer:identifier-language", "-", err.Error())
